@@ -310,6 +310,11 @@ func refFormat(tpl string, args []zn.Value) (out string, wantErr bool, unspec st
 			if m == nil {
 				// not one of the documented spellings: either rejected or (for spellings made
 				// of the documented parts in another combination) unspecified
+				// ... but a directive names ONE rendering: anything after a suffix (a second
+				// suffix, digits, a sign, a dot) is malformed under every reading
+				if regexp.MustCompile(`^#[+.0-9]*[E%][+.0-9E%]+$`).MatchString(x.dir) {
+					return "", true, ""
+				}
 				if regexp.MustCompile(`^#[+.0-9E%]*$`).MatchString(x.dir) {
 					return "", false, "directive spelling the manual neither lists nor excludes: " + x.dir
 				}
@@ -430,7 +435,7 @@ func genFmtCase(t *rapid.T) (fmtCase, []string) {
 			nph++
 			kinds["{#.NE}"] = true
 		case 10:
-			bad := rapid.SampledFrom([]string{"{", "}", "{{}}", "{x}", "{#.}", "{#.99999999999999999999}", "{#E%}", "{#x}", "{#.2.3}", "{#++}", "{# }", "{#.2EE}", "{#E}", "{#%}", "{#.5000}", "{#.2147483648}", "{#.4294967297}", "}{", "{#.-1}"}).Draw(t, "bad")
+			bad := rapid.SampledFrom([]string{"{", "}", "{{}}", "{x}", "{#.}", "{#.99999999999999999999}", "{#E%}", "{#x}", "{#.2.3}", "{#++}", "{# }", "{#.2EE}", "{#.2E%}", "{#+.1E%}", "{#%E}", "{#.2%E}", "{#%%}", "{#.2E3}", "{#E.2}", "{#.2%+}", "{#E}", "{#%}", "{#.5000}", "{#.2147483648}", "{#.4294967297}", "}{", "{#.-1}"}).Draw(t, "bad")
 			tpl.WriteString(bad)
 			if strings.Count(bad, "{") == 1 && strings.Count(bad, "}") == 1 && strings.Index(bad, "{") < strings.Index(bad, "}") {
 				nph++
